@@ -407,6 +407,15 @@ pub fn check_program(ops: &[String]) -> Option<()> {
                 num(w[4])?;
                 num(w[5])?;
             }
+            ("kmap", 5) => {
+                c.is(w[1], Kind::Lib)?;
+                num(w[2])?;
+                num(w[3])?;
+                num(w[4])?;
+            }
+            ("kunmap", 2) => {
+                num(w[1])?;
+            }
             ("unmap", 3) => {
                 c.is(w[1], Kind::Proc)?;
                 num(w[2])?;
@@ -790,6 +799,15 @@ impl Exec {
                 let pr = self.proc(w[1])?;
                 let l = self.lib(w[2])?;
                 self.p.add_lib_mapping(pr, l, num(w[3])?, num(w[4])?, num(w[5])? as u32);
+                Some("ok".into())
+            }
+            "kmap" => {
+                let l = self.lib(w[1])?;
+                self.p.add_kernel_lib_mapping(l, num(w[2])?, num(w[3])?, num(w[4])? as u32);
+                Some("ok".into())
+            }
+            "kunmap" => {
+                self.p.remove_kernel_lib_mapping(num(w[1])?);
                 Some("ok".into())
             }
             "unmap" => {
